@@ -207,9 +207,10 @@ def body (cfg : Cfg) (w : World) (s : SState) (v : Verb) (rest : Str) (arg : PPa
     let w2 := match u with
       | some i => { w1 with userFree := updUser w1.userFree i acquire }
       | none => w1
-    let s2 := match u with
-      | some i => { s1 with user := some i, logged := lg, cwd := ((cfg.users[i]?).map (·.home)).getD ⟨1, []⟩ }
-      | none => s1
+    -- (`get_user` answers "logged" only together with a user, so `logged := lg` is exact in the 530 case too)
+    let s2 := { s1 with user := u, logged := lg, cwd := match u with
+      | some i => ((cfg.users[i]?).map (·.home)).getD ⟨1, []⟩
+      | none => s1.cwd }
     (w2, s2, { replies := [code] })
   | .pass =>
     if s.logged then (w, s, { replies := [503] })
@@ -275,9 +276,7 @@ def verbOf (name : Str) : Option Verb :=
 
 /-- `parse_command`: decode, `rstrip()`, `partition(" ")`, `lower()` -/
 def parseCommand (raw : Str) : Str × Str :=
-  let s := rstrip raw
-  let (cmd, rest) := partitionSpace s
-  (lower cmd, rest)
+  (lower (partitionSpace (rstrip raw)).1, (partitionSpace (rstrip raw)).2)
 
 def keepsRestart (name : Str) : Bool := restartKeep.any (fun k => k.toList = name)
 
@@ -289,6 +288,30 @@ def finalize (w : World) (s : SState) : World × SState :=
   (w2, { s with alive := false, acquired := false, user := none, logged := false, passive := false,
                 dataConn := false })
 
+/-- `connection.restart_offset = 0` at dispatch for every known verb outside the keep set -/
+def resetRestart (name : Str) (s : SState) : SState :=
+  if keepsRestart name then s else { s with restartOffset := 0 }
+
+/-- the path argument a handler passes to `get_paths`: CDUP passes `current_directory.parent` -/
+def argOf (s : SState) (v : Verb) (rest : Str) : PPath :=
+  if v = .cdup then s.cwd.parent else PPath.parse rest
+
+/-- guards, then body -/
+def runVerb (cfg : Cfg) (w : World) (s0 : SState) (v : Verb) (rest : Str) (payload : Bytes) :
+    World × SState × Out :=
+  match runGuards cfg w s0 (argOf s0 v rest) v.guards with
+  | .fail code => (w, s0, { replies := [code] })
+  | .crash => (w, { s0 with alive := false }, { crashed := true })
+  | .silent => (w, s0, {})
+  | .pass => body cfg w s0 v rest (argOf s0 v rest) payload
+
+/-- the dispatcher's treatment of one parsed command -/
+def dispatch (cfg : Cfg) (w : World) (s : SState) (name rest : Str) (payload : Bytes) :
+    World × SState × Out :=
+  match verbOf name with
+  | none => (w, s, { replies := [502] })        -- restart offset NOT reset for an unknown verb
+  | some v => runVerb cfg w (resetRestart name s) v rest payload
+
 def step0 (cfg : Cfg) (w : World) (s : SState) : Event → World × SState × Out
   | .connect =>
     if locked w.serverFree then (w, { s with alive := false }, { replies := [421] })
@@ -296,29 +319,16 @@ def step0 (cfg : Cfg) (w : World) (s : SState) : Event → World × SState × Ou
   | .dataConnect =>
     if s.passive && !s.dataConn then (w, { s with dataConn := true }, {}) else (w, s, {})
   | .finish => let (w', s') := finalize w s; (w', s', {})
-  | .line raw payload =>
-    let (name, rest) := parseCommand raw
-    match verbOf name with
-    | none => (w, s, { replies := [502] })        -- restart offset NOT reset for an unknown verb
-    | some v =>
-      -- `connection.restart_offset = 0` happens at dispatch, before the handler task runs
-      let s0 := if keepsRestart name then s else { s with restartOffset := 0 }
-      let arg : PPath := if v = .cdup then s0.cwd.parent else PPath.parse rest
-      match runGuards cfg w s0 arg v.guards with
-      | .fail code => (w, s0, { replies := [code] })
-      | .crash => (w, { s0 with alive := false }, { crashed := true })
-      | .silent => (w, s0, {})
-      | .pass =>
-        let (w', s', o) := body cfg w s0 v rest arg payload
-        -- a transfer consumed the parked data connection; restart offset stays as the code leaves it
-        (w', s', o)
+  | .line raw payload => dispatch cfg w s (parseCommand raw).1 (parseCommand raw).2 payload
 
 /-- one event; a session that stops being alive runs the dispatcher's `finally` at once -/
 def step (cfg : Cfg) (w : World) (s : SState) (ev : Event) : World × SState × Out :=
-  let (w', s', o) := step0 cfg w s ev
-  if s'.alive then (w', s', o) else
-    let (w'', s'') := finalize w' s'
-    (w'', s'', o)
+  let r := step0 cfg w s ev
+  if r.2.1.alive then r else ((finalize r.1 r.2.1).1, (finalize r.1 r.2.1).2, r.2.2)
+
+theorem step_of_alive (cfg : Cfg) (w : World) (s : SState) (ev : Event)
+    (h : (step0 cfg w s ev).2.1.alive = true) : step cfg w s ev = step0 cfg w s ev := by
+  unfold step; simp [h]
 
 end Session
 end Model
